@@ -137,3 +137,24 @@ mutant("hwl_hash_skips_length_manual", ["C14"], [("src/header.rs", "#[derive(Deb
 mutant("borrow_returns_other", ["C14"], [("src/arc.rs", "impl<T: ?Sized> AsRef<T> for Arc<T> {\n    #[inline]\n    fn as_ref(&self) -> &T {\n        self\n    }", "impl<T: ?Sized> AsRef<T> for Arc<T> {\n    #[inline]\n    fn as_ref(&self) -> &T {\n        unsafe { &*(self.as_ptr()) }\n    }")])
 benign("thin_eq_ptr_shortcut_via_arc", [("src/thin_arc.rs", "ThinArc::with_arc(self, |a| ThinArc::with_arc(other, |b| *a == *b))", "ThinArc::with_arc(self, |a| ThinArc::with_arc(other, |b| Arc::ptr_eq(a, b) || *a == *b))")])
 benign("arc_partial_cmp_via_deref_call", [("src/arc.rs", "        (**self).partial_cmp(&**other)", "        PartialOrd::partial_cmp(Deref::deref(self), Deref::deref(other))")])
+
+# ------------------------------------------------------------------ C17
+mutant("serialize_header_only_unique", ["C17"], [("src/arc.rs", "        S: ::serde::ser::Serializer,\n    {\n        (**self).serialize(serializer)", "        S: ::serde::ser::Serializer,\n    {\n        let r = (**self).serialize(serializer);\n        if r.is_err() { let _ = Arc::strong_count(self); }\n        r.map_err(|e| e)")])
+mutant("serialize_as_newtype", ["C17"], [("src/unique_arc.rs", "        S: ::serde::ser::Serializer,\n    {\n        (**self).serialize(serializer)", "        S: ::serde::ser::Serializer,\n    {\n        serializer.serialize_newtype_struct(\"UniqueArc\", &**self)")])
+mutant("deserialize_map_err_rewrites", ["C17"], [("src/arc.rs", "T::deserialize(deserializer).map(Arc::new)", "T::deserialize(deserializer).map(Arc::new).map_err(|_e| <D::Error as ::serde::de::Error>::custom(\"bad arc\"))")])
+mutant("deserialize_alloc_first", ["C17"], [("src/arc.rs", "T::deserialize(deserializer).map(Arc::new)", "{ let mut slot = UniqueArc::<T>::new_uninit(); let v = T::deserialize(deserializer)?; slot.write(v); Ok(unsafe { UniqueArc::assume_init(slot) }.shareable()) }")])
+mutant("deserialize_unique_shared_cache", ["C17"], [("src/unique_arc.rs", "T::deserialize(deserializer).map(UniqueArc::new)", "T::deserialize(deserializer).map(|v| { let a = Arc::new(v); let b = a.clone(); core::mem::forget(b); UniqueArc(a) })")])
+benign("deserialize_closure_form", [("src/arc.rs", "T::deserialize(deserializer).map(Arc::new)", "T::deserialize(deserializer).map(|v| Arc::new(v))")])
+
+# ------------------------------------------------------------------ C12
+mutant("from_second_no_tag", ["C12"], [("src/arc_union.rs", "unsafe { Self::new(((Arc::into_raw(other) as usize) | 0x1) as *mut _) }", "unsafe { Self::new(((Arc::into_raw(other) as usize) | 0x0) as *mut _) }")])
+mutant("borrow_no_strip", ["C12"], [("src/arc_union.rs", "let ptr = ((self.p.as_ptr() as usize) & !0x1) as *const B;", "let ptr = ((self.p.as_ptr() as usize) & !0x0) as *const B;")])
+benign("strip_mask_3_harmless_given_alignment", [("src/arc_union.rs", "let ptr = ((self.p.as_ptr() as usize) & !0x1) as *const B;", "let ptr = ((self.p.as_ptr() as usize) & !0x3) as *const B;")])
+mutant("is_first_test_eq_1", ["C12"], [("src/arc_union.rs", "self.p.as_ptr() as usize & 0x1 == 0", "self.p.as_ptr() as usize & 0x1 == 1")])
+mutant("is_first_mask_2", ["C12"], [("src/arc_union.rs", "self.p.as_ptr() as usize & 0x1 == 0", "self.p.as_ptr() as usize & 0x2 == 0")])
+mutant("clone_second_as_first", ["C12"], [("src/arc_union.rs", "ArcUnionBorrow::Second(x) => ArcUnion::from_second(x.clone_arc()),", "ArcUnionBorrow::Second(x) => unsafe { ArcUnion::new(Arc::into_raw(x.clone_arc()) as *mut _) },")])
+mutant("as_second_swapped", ["C12"], [("src/arc_union.rs", "            ArcUnionBorrow::First(_) => None,\n            ArcUnionBorrow::Second(x) => Some(x),", "            ArcUnionBorrow::First(_) => None,\n            ArcUnionBorrow::Second(_x) => None,")])
+mutant("union_eq_mixed_true", ["C12", "C14"], [("src/arc_union.rs", "            (_, _) => false,", "            (_, _) => ArcUnion::ptr_eq(self, other) || true,")])
+mutant("arcinner_not_repr_c", ["C12", "C05", "C11"], [("src/arc.rs", "#[repr(C)]\npub(crate) struct ArcInner<T: ?Sized> {", "pub(crate) struct ArcInner<T: ?Sized> {")])
+benign("strip_mask_equivalent_const", [("src/arc_union.rs", "let ptr = ((self.p.as_ptr() as usize) & !0x1) as *const B;", "let ptr = ((self.p.as_ptr() as usize) & (usize::MAX - 1)) as *const B;")])
+benign("tag_by_add", [("src/arc_union.rs", "unsafe { Self::new(((Arc::into_raw(other) as usize) | 0x1) as *mut _) }", "unsafe { Self::new(((Arc::into_raw(other) as usize) + 1) as *mut _) }")])
